@@ -214,6 +214,10 @@ func (f *FrameHeader) readFrom(br *bufio.Reader) (int64, error) {
 		n, err = io.ReadFull(br, f.payload[:n])
 		if err != nil {
 			ReleaseFrame(f.fr)
+			// The body is back in its pool: the caller must not release it
+			// again through the frame header.
+			f.fr = nil
+
 			return 0, err
 		}
 
